@@ -184,6 +184,28 @@ def seqOp (w : List String) : String :=
       if bad then "bad-op" else ";".intercalate out
   | _ => "bad-op"
 
+/-- `enciter <array|map> <exact|loose|even|open> <values>` (see harness/core/src/encop.rs).  The size hint of
+    `slice::Iter` is exact; `filter` keeps only the upper bound (so it is exact only for an empty
+    source); a chain with an open-ended iterator has no upper bound.  The second result is the
+    specification: the preferred definite form when the hint was exact, else the indefinite form. -/
+def enciterOp (w : List String) : String :=
+  match w with
+  | [kind, hint, vs] =>
+    let vals? : Option (List Nat) := if vs == "-" then some [] else (vs.splitOn ",").mapM (·.toNat?)
+    match vals? with
+    | none => "bad-op"
+    | some vals =>
+      let src := vals.length
+      let kept := if hint == "even" then vals.filter (· % 2 == 0) else vals
+      let exact := if hint == "exact" then true else if hint == "open" then false else src == 0
+      if kind == "array" then hexOfBytes (Enc.arrayIter exact (kept.map Enc.u32))
+      else if kind == "map" then
+        let idx := (List.range src).zip vals
+        let keptP := if hint == "even" then idx.filter (·.2 % 2 == 0) else idx
+        hexOfBytes (Enc.mapIter exact (keptP.flatMap fun p => [Enc.u32 p.1, Enc.u32 p.2]))
+      else "bad-op"
+  | _ => "bad-op"
+
 /-- `intconv to:<T> <v>` / `intconv from:<T> <v>` (see harness/core/src/intconv.rs). -/
 def intconvOp (w : List String) : String :=
   match w with
